@@ -46,7 +46,8 @@ func vSuiteEq(a, b ipmi.CipherSuite) bool {
 }
 
 // C12 (i): the suite chosen from an ordered preference list of length 0..3 (arbitrary
-// algorithm numbers) given an advertised set of 0..4 arbitrary standard records served
+// algorithm numbers) given an advertised set of 0..4 arbitrary standard records (each with
+// one or two confidentiality algorithms) served
 // through the real discovery command is the first preference that is advertised; no
 // preference advertised gives ErrNoSupportedCipherSuite; a single preference is taken
 // without discovery; an empty list means suite 17, then 3.
@@ -61,6 +62,11 @@ func VerifC12_Preference() {
 	}
 	na := vLen(0, vParam("maxadvertised", 4))
 	shapes := make([]int, na)
+	if na > 0 && vBool() {
+		// one record (the first or the last) advertises two suites that share
+		// authentication and integrity algorithms
+		shapes[[]int{0, na - 1}[vChoice(2)]] = 4
+	}
 	bmc := &refSuiteBMC{data: vSuiteRecords(shapes)}
 	adv, _ := refParseSuites(bmc.data)
 	ft.reply = func(attempt int, req []byte) ([]byte, error) { return bmc.handle(req), nil }
